@@ -21,6 +21,8 @@ Oracle = acceptance by `vf.ref.rom_mbi` (bytes only; hashlib / hmac / cryptograp
   C02.flip-accepted   a single-bit corruption inside an authenticated region is accepted by the model
                       (= a byte the ROM authenticates lies outside what was signed / hashed / MACed, or
                       the model is vacuous there).  Key store bytes are unauthenticated by format.
+  C02.manifest-digest-alg   the automatic manifest digest (addManifestDigest) is not of the hash algorithm the ROM uses
+                      for the image signature (curve of the ISK if present, else of the root key)
   C02.history-accept  the image exported after one member of a live object was replaced fails the ROM checks
   C02.wrong-key-accepted / -exception   an export attempt with a signing key that does not belong to the certificate
                       block is neither refused with SPSDKError nor verifiable under the key in the image
@@ -184,6 +186,15 @@ def judge(case: dict, ob: dict, flips: Optional[str]) -> tuple[list, dict]:
             if r["cert"]["rkth"] != want_rkth:
                 V.append(("C02.rkth", f"{facts['cert']};image", "root key table in the image does not hash to the "
                                                                 "hash of the configured root keys"))
+        man = r.get("manifest")
+        if man and exp.get("digest") == "auto":
+            # addManifestDigest: the digest exists for the ROM's signature check, so it has to be the hash
+            # of the key that signs the image (ISK if present, else the root key): P-256 -> SHA-256, P-384 -> SHA-384
+            if man["digest_alg"] != man["signature_hash_alg"]:
+                V.append(("C02.manifest-digest-alg", f"{tag};digest-alg-{man['digest_alg']}/signature-hash-{man['signature_hash_alg']}",
+                          "automatic manifest digest is not of the hash algorithm of the image signature"))
+        elif man and man["digest_alg"] and man["digest_alg"] != man["signature_hash_alg"]:
+            cnt["explicit_digest_algorithm_other_than_signature_hash"] = 1
         if case["auth"] == "encrypted":
             V += _decrypt_clause(case, ob, r, tag)
             cnt["decrypt_compared"] = 1
@@ -289,7 +300,11 @@ def judge_history(case: dict, ob: dict) -> list:
     if ob["status"] != "ok":
         return []
     tag = M.path_tag(ob["exp"]["triple"])
-    V = []
+    V: list = []
+    want = M.fixture_rkth(ob["exp"])
+    if want is not None and ob.get("rkth") != want:
+        V.append(("C02.rkth", f"{ob['exp']['facts']['cert']};api;history:{ob['step']}",
+                  f"MasterBootImage.rkth = {_hx(ob.get('rkth'))}, hash of the final root keys = {want.hex()}"))
     for name, exp_key, img_key in (("before", "exp_a", "img1b"), ("after", "exp", "image")):
         o2 = {"exp": ob[exp_key], "image": ob[img_key]}
         try:
@@ -452,10 +467,13 @@ def run(ctx) -> None:
             # the smallest image of the class: every byte (quick) / every bit (thorough) is corrupted once
             lc.append({"fam": fam, "rev": "latest", "tgt": tgt, "auth": auth, "len": 0x40, "content": "seeded",
                        "opts": {}, "seed": ctx.seed, "flips": "bytes" if quick else "bits"})
-            for a in lat.enumerate(k, with_groups=with_groups):
-                if not a:
-                    continue
-                opts = {n: lat.by_name[n].values[i] for n, i in a.items()}
+            todo = [{n: lat.by_name[n].values[i] for n, i in a.items()}
+                    for a in lat.enumerate(k, with_groups=with_groups) if a]
+            for opts in M.digest_product(t) + M.flag_product(t):
+                if opts not in todo:
+                    todo.append(opts)
+            for opts in todo:
+                a = opts
                 size_hint = 0x1F0
                 mode = "fml"
                 if not quick and len(a) <= 1:
